@@ -23,6 +23,7 @@ import AdaptaVerif.Lemmas.FrameRoute
 import AdaptaVerif.Lemmas.FrameVpsc
 import AdaptaVerif.Lemmas.FrameScan
 import AdaptaVerif.Lemmas.FrameExample
+import AdaptaVerif.Lemmas.FrameScanC09
 namespace AdaptaVerif.Props.C20
 open AdaptaVerif.Model.Geometry AdaptaVerif.Model.Frame AdaptaVerif.Spec.Frame
 open AdaptaVerif.Lemmas
@@ -208,6 +209,16 @@ example : FrameScan.TieFree (fun i => (i : Rat)) [0, 1, 2] := by
   intro u hu v hv huv h
   have h' : (u : Rat) = (v : Rat) := h
   exact huv (by exact_mod_cast h')
+
+/-- the same for the comparator of the C09 scan-line model (`Model.Scanline.keyLt ax rank`, the `lt`
+    handed to `scanPtr`/`scanNL`): with pairwise distinct centres in the constraint dimension it does
+    not depend on the address ranks -/
+theorem c09_comparator_tie_free (ax : AdaptaVerif.Model.Scanline.Axis) (r1 r2 : Nat → Nat) (ids : List Nat)
+    (h : FrameScan.TieFree ax.ctr ids) :
+    ∀ u ∈ ids, ∀ v ∈ ids, AdaptaVerif.Model.Scanline.keyLt ax r1 u v = AdaptaVerif.Model.Scanline.keyLt ax r2 u v := by
+  intro u hu v hv
+  rw [FrameScanC09.scanline_keyLt_eq, FrameScanC09.scanline_keyLt_eq]
+  exact FrameScan.keyLt_tie_free ax.ctr r1 r2 ids h u hu v hv
 
 /-- …and the hypothesis is needed: with two coincident centres the scan-line order IS the address order -/
 theorem coincident_centres_depend_on_addresses :
